@@ -470,3 +470,129 @@ func featureReads(r *RNG, l string, prefix string, txN uint64) []Op {
 	}
 	return out
 }
+
+// ---------------------------------------------------------------- C19, read half, statement level
+
+// checkReadsAreScoped: while a ledger shares its bucket, every reference a read statement makes to a table of
+// the bucket carries that ledger's predicate (the tables of a bucket hold the rows of all its ledgers). This
+// is judged on the text of every statement the real storage layer sends for a read - also the ones the
+// interpreter cannot execute (window functions, lateral joins, history tables).
+func checkReadsAreScoped(r *runner) []Violation {
+	var vs []Violation
+	r.w.mu.Lock()
+	us := append([]UnscopedRead(nil), r.w.unscoped...)
+	r.w.mu.Unlock()
+	if len(us) == 0 {
+		return nil
+	}
+	created := map[string]uint64{}
+	bucketOf := map[string]string{}
+	for _, rec := range r.w.db.CommitsSince(0) {
+		for _, wr := range rec.Writes {
+			if wr.Key.Table == "ledger" && wr.Before == nil && wr.After != nil {
+				created[wr.Key.Key] = rec.Event
+				bucketOf[wr.Key.Key] = wr.After.(*LedgerRow).Bucket
+			}
+		}
+	}
+	seen := map[string]bool{}
+	for _, u := range us {
+		var sibling string
+		inFlight := false
+		or := r.byID[opIDOf(u.Task)]
+		for _, name := range sortedKeys(created) {
+			if name == u.Ledger || bucketOf[name] != u.Bucket || created[name] >= u.Event {
+				continue
+			}
+			sibling = name
+			if or != nil && created[name] > or.Out.Invoke {
+				inFlight = true
+			} else {
+				inFlight = false
+				break
+			}
+		}
+		if sibling == "" {
+			continue // alone in its bucket when the statement was sent: the shortcut is legitimate
+		}
+		tag := " [the bucket already held its ledgers when the read was sent]"
+		if inFlight {
+			tag = " [ledger " + sibling + " was added to the bucket while this read was in flight]"
+		}
+		k := u.Task + tag
+		if seen[k] {
+			continue
+		}
+		seen[k] = true
+		vs = append(vs, Violation{r.sc.Property, "read-statements-are-scoped-to-the-ledger", fmt.Sprintf("%s on ledger %s (bucket %s, shared with %s) sent a statement with %d references to tables of the bucket %v and %d ledger predicates: %s%s", u.Task, u.Ledger, u.Bucket, sibling, u.Refs, u.Tables, u.Scoped, u.SQL, tag)})
+	}
+	return vs
+}
+
+func init() {
+	// C19, read half at statement level: ledgers sharing a bucket (and one alone in its own, joined by a sibling
+	// half-way), the same account addresses carrying metadata and funds in each, then reads of every kind -
+	// point in time, expansions, filters, volumes, aggregated balances. The statements the real storage layer
+	// builds for them are audited for their ledger predicates; the answers the simulation can produce are
+	// checked item for item.
+	register(Profile{Property: "C19", Name: "read-statements", Gen: func(r *RNG, seed uint64, tier string) (*Scenario, *ExploreCfg) {
+		sc := &Scenario{Property: "C19", Profile: "read-statements", Knobs: randomKnobs(r), Checks: []string{"reads-are-scoped", "reads-stay-in-ledger", "isolation"},
+			Params: map[string]string{"lenient_reads": "1"}}
+		g := &gen{r: r, sc: sc}
+		feats := func() map[string]string {
+			if r.Chance(0.5) {
+				return nil
+			}
+			return map[string]string{"ACCOUNT_METADATA_HISTORY": Pick(r, []string{"SYNC", "DISABLED"}), "TRANSACTION_METADATA_HISTORY": Pick(r, []string{"SYNC", "DISABLED"}),
+				"MOVES_HISTORY": Pick(r, []string{"ON", "ON", "OFF"})}
+		}
+		sc.Setup = []Op{
+			{ID: g.id("s"), Kind: KCreateLedger, Ledger: "la", Feats: feats()},
+			{ID: g.id("s"), Kind: KCreateLedger, Ledger: "lb", Feats: feats()},
+			{ID: g.id("s"), Kind: KCreateLedger, Ledger: "lc", Bucket: "b2", Feats: feats()},
+		}
+		for i, l := range []string{"la", "lb", "lc"} {
+			for j := 0; j < 1+r.Intn(3); j++ {
+				sc.Setup = append(sc.Setup, Op{ID: g.id("s"), Kind: KPostings, Ledger: l, Postings: []PostingSpec{{"world", Pick(r, users), fmt.Sprint(10*(i+1) + j), Pick(r, assets)}},
+					Metadata: map[string]string{"of": l}, Timestamp: g.timestamp()})
+			}
+			sc.Setup = append(sc.Setup, Op{ID: g.id("s"), Kind: KAcctMetaSet, Ledger: l, Address: Pick(r, users), Metadata: map[string]string{"k": "of-" + l}})
+			if r.Chance(0.5) {
+				sc.Setup = append(sc.Setup, Op{ID: g.id("s"), Kind: KAcctMetaSet, Ledger: l, Address: "u:1", Metadata: map[string]string{"k": "again-" + l, "of": l}})
+			}
+		}
+		nc := 1 + r.Intn(2)
+		for c := 0; c < nc; c++ {
+			var ops []Op
+			for _, l := range []string{"la", "lb", "lc"} {
+				if r.Chance(0.25) {
+					continue
+				}
+				reads := featureReads(r, l, fmt.Sprintf("c%d%s", c, l), 1)
+				for i := range reads {
+					if reads[i].Raw.Body == "" && r.Chance(0.4) && !strings.Contains(reads[i].Raw.Path, "/accounts/") && !strings.Contains(reads[i].Raw.Path, "/transactions/") {
+						reads[i].Raw.Body = Pick(r, fieldFilters)
+						reads[i].Raw.Header = map[string]string{"Content-Type": "application/json"}
+					}
+				}
+				ops = append(ops, reads...)
+			}
+			for i := len(ops) - 1; i > 0; i-- {
+				j := r.Intn(i + 1)
+				ops[i], ops[j] = ops[j], ops[i]
+			}
+			for i := range ops {
+				ops[i].ID = fmt.Sprintf("c%d.%d", c, i)
+			}
+			sc.Clients = append(sc.Clients, ops)
+		}
+		if r.Chance(0.4) {
+			// the lonely ledger gets a sibling while reads run
+			sc.Clients = append(sc.Clients, []Op{{ID: "cg.0", Kind: KCreateLedger, Ledger: "ld", Bucket: "b2"},
+				{ID: "cg.1", Kind: KPostings, Ledger: "ld", Postings: []PostingSpec{{"world", "u:1", "77", "USD"}}, Metadata: map[string]string{"of": "ld"}}})
+		}
+		ex := defaultExplore(seed, 0, 0)
+		ex.PreemptP = 0.4
+		return sc, ex
+	}})
+}
